@@ -40,9 +40,14 @@ def make_plan(rng):
         elif mode == "all":
             faulty = set(range(n))
         tasks = []
+        # task arguments are usually all the same size (contours of one region) but need
+        # not be: contours extended to the wall are longer than their neighbours
+        ragged = rng.choice((False, False, True))
         for k in range(n):
             fault = rng.choice(FAULT_KINDS) if k in faulty else "ok"
             payload = [rng.randrange(1000), c, k]
+            if ragged:
+                payload += [7] * rng.choice((0, 0, 1, 1, 2, 4))
             tasks.append([k, payload, fault])
         calls.append({"tasks": tasks, "scale": rng.choice((1, 2, 3))})
     # pipe capacity under the queues: 64 KiB as on Linux, or small enough for the
